@@ -25,10 +25,15 @@ static struct elem * get(int id)
 }
 static int idof(const void * e) { return e ? ((const struct elem *)e)->id : -1; }
 
+static int cmpmode, cmpcalls;
 static int cmp(const void * a, const void * b, void * p)
 {
     const struct elem * x = a, * y = b; (void)p;
-    return (x->key > y->key) - (x->key < y->key);
+    int sg = (x->key > y->key) - (x->key < y->key);
+    cmpcalls++;
+    if (cmpmode == 1) return x->key - y->key;
+    if (cmpmode == 2) return sg * (1 + (cmpcalls * 7) % 13);
+    return sg;
 }
 
 static int vis_log[4 * MAXE], vis_n, vis_stop;
@@ -66,7 +71,7 @@ static void run_case(const struct h_case * c)
 {
     int i, k, started = 0;
 
-    nkeys = 0; nlists = 1;
+    nkeys = 0; nlists = 1; cmpmode = 0; cmpcalls = 0;
     memset(pool, 0, sizeof(pool));
     for (i = 0; i < c->nlines; i++) {
         const struct h_line * l = &c->lines[i];
@@ -77,6 +82,7 @@ static void run_case(const struct h_case * c)
             continue;
         }
         if (h_weq(l, 0, "nlists")) { nlists = a; continue; }
+        if (h_weq(l, 0, "cmpmode")) { cmpmode = a; continue; }
         if (!started) {
             for (k = 0; k < nlists; k++)
                 cstl_slist_init(&lists[k], offsetof(struct elem, sn));
